@@ -549,15 +549,19 @@ def _text_worker(items):
             cls = "closing-symbol-as-term" if sw in (")", "]", "}") else \
                   "double-bracket-as-term" if sw in ("[[", "]]") else "other"
             out["problems"].append(("unbalanced-accepted:" + cls,
-                                    "QueryHandler(%r) compiles although its grouping symbols are unbalanced (the token %r "
-                                    "is taken as a search term)" % (c["text"], sw),
+                                    "QueryHandler(%r) compiles although its grouping symbols are unbalanced%s"
+                                    % (c["text"], " (the token %r is taken as a search term)" % sw if sw else ""),
                                     {"kind": "compile", "text": c["text"], "expect": "reject"}))
         if oc == "ok" and c["balanced"] and not c["strict"]:
             out["lenient_extra"] += 1
-        if (oc == "ok") != c["lenient"]:
+        # the required parser accepts => compile; even the parser as implemented rejects => reject; texts in
+        # between (a grouping token swallowed as a term) may go either way without drift
+        if (c["strict"] and oc != "ok") or (not c["lenient"] and oc == "ok"):
             out["drift_n"] += 1
             if len(out["drift"]) < 5:
-                out["drift"].append({"text": c["text"], "model_lenient": c["lenient"], "code": oc})
+                out["drift"].append({"text": c["text"], "model_strict": c["strict"], "model_lenient": c["lenient"], "code": oc})
+        if oc == "ok" and not c["strict"]:
+            out["swallowing"] = out.get("swallowing", 0) + 1
         # keep one problem per key per slice
         seen, keep = set(), []
         for p in out["problems"]:
@@ -902,7 +906,7 @@ def run(ctx):
     ctx.note("gen_searches_on_code", nsearch)
 
     # ---- 5. binding A/B: random deep cases over the real vocabulary, judged by TLC --------------
-    ndeep = 600 if quick else 8000
+    ndeep = 600 if quick else 12000
     vocab, cases, used = build_deep_cases(f, ctx.rng, fams, ndeep, 9 if quick else 12)
     path = os.path.join(ctx.work, "deep.json")
     with open(path, "w") as fh:
@@ -966,6 +970,8 @@ def run(ctx):
     for v in tv:
         if v["rd"] != v["lenient"]:
             raise tlc.TLCFailure("PDA and recursive descent disagree on %r" % v["text"])
+    items.sort(key=lambda c: (len(c["text"]), c["text"]))       # TLC workers print in no fixed order
+    tv.sort(key=lambda c: c["i"])
     seen_t, allt = set(), []
     for c in items + tv:
         if c["text"] not in seen_t:
@@ -973,11 +979,11 @@ def run(ctx):
             allt.append(c)
     with _pool(ncpu) as pool:
         results = pool.map(_text_worker, _slices(allt, ncpu * 2))
-    tot = {"n": 0, "accepted": 0, "rejected": 0, "unbalanced": 0, "lenient_extra": 0}
+    tot = {"n": 0, "accepted": 0, "rejected": 0, "unbalanced": 0, "lenient_extra": 0, "swallowing": 0}
     for res in results:
         _report(ctx, res)
         for k in tot:
-            tot[k] += res[k]
+            tot[k] += res.get(k, 0)
     ctx.evaluations += tot["n"]
     ctx.traces += tot["n"]
     ctx.nontrivial.update("t:" + c["text"] for c in allt if c["lenient"] or not c["balanced"])
